@@ -384,6 +384,25 @@ static Val gen_val(vfh::Rng &r, int kind, const Val *shape_of = nullptr) {
         else { rows = r.range(1, 40); cols = r.range(1, 40); if (rows == cols) cols++; }  // non-square
       }
       v.m = gen_matrix(r, rows, cols);
+      // square matrices as they occur in practice: exactly symmetric, symmetric up to rounding noise (an overlap-like matrix
+      // computed numerically), signed zeros, antisymmetric. A layout shortcut keyed on "is symmetric" must not change a bit.
+      if (rows == cols && rows >= 2 && r.coin(0.5)) {
+        int t = (int)r.range(0, 5);
+        Eigen::MatrixXd sy = 0.5 * (v.m + v.m.transpose());
+        if (t == 0) v.m = sy;
+        else if (t == 1 || t == 2) {
+          v.m = sy;
+          for (long i = 0; i < rows; ++i)
+            for (long j = i + 1; j < cols; ++j)
+              if (r.coin(0.4)) v.m(i, j) = std::nextafter(v.m(i, j), r.coin() ? 1e300 : -1e300);  // 1 ulp asymmetry
+          if (t == 2) v.m *= 1e-3;  // overlap-like magnitudes
+        } else if (t == 3) {
+          v.m.setZero();
+          v.m(r.range(0, rows - 1), r.range(0, cols - 1)) = -0.0;
+          if (r.coin()) v.m(0, cols - 1) = -0.0;
+        } else if (t == 4) v.m = 0.5 * (v.m - v.m.transpose());
+        else { v.m = sy; v.m(rows - 1, 0) *= (1.0 + 1e-13); }  // relative asymmetry 1e-13 in one element
+      }
       break;
     }
     case K_VECTORXD: v.m = gen_matrix(r, shape_of ? shape_of->m.rows() : (r.coin(0.06) ? 0L : r.range(1, r.coin(0.1) ? 3000 : 50)), 1); break;
